@@ -51,6 +51,9 @@ type kitServeCfg struct {
 	Marker string `json:"marker,omitempty"`
 	// NoMuxAdvert: behave like a plugin built before broker multiplexing existed: ignore PLUGIN_MULTIPLEX_GRPC
 	NoMuxAdvert bool `json:"no_mux_advert,omitempty"`
+	// NoAutoMTLS: behave like a plugin that does not implement AutoMTLS (built against an old go-plugin, or
+	// not written in Go): ignore PLUGIN_CLIENT_CERT — no certificate in the handshake line, plaintext listener
+	NoAutoMTLS bool `json:"no_auto_mtls,omitempty"`
 	// PreServe: "" | "exit:<code>" | "sleep:<ms>" | "print:<hex bytes>" (then continue) | "printexit:<hex>" | "printhang:<hex>"
 	PreServe string `json:"pre_serve,omitempty"`
 }
@@ -108,6 +111,9 @@ func pluginKit(args []string) {
 	}
 	if cfg.NoMuxAdvert {
 		os.Unsetenv("PLUGIN_MULTIPLEX_GRPC")
+	}
+	if cfg.NoAutoMTLS {
+		os.Unsetenv("PLUGIN_CLIENT_CERT")
 	}
 	vp, legacy := kitSets(&cfg)
 	sc := &plugin.ServeConfig{
